@@ -539,8 +539,9 @@ def check_expr_table(cx, rep):
             parts.append(d)
         return '||'.join(sorted(parts))
     EXP = {
-        'Lit::Int': ([('Some(Type::Path(_))', '$1')], ncond('int.suffix()==%s||INT_TYPES.contains(&%s.as_str())' % (TS, TS))),
-        'Lit::Float': ([('Some(Type::Path(_))', '$1')], ncond('float.suffix()==%s||FLOAT_TYPES.contains(&%s.as_str())' % (TS, TS))),
+        # a suffixed literal has one natural type (its suffix); only an unsuffixed one takes any integer / float type
+        'Lit::Int': ([('Some(Type::Path(_))', '$1')], ncond('int.suffix()==%s||int.suffix().is_empty()&&INT_TYPES.contains(&%s.as_str())' % (TS, TS))),
+        'Lit::Float': ([('Some(Type::Path(_))', '$1')], ncond('float.suffix()==%s||float.suffix().is_empty()&&FLOAT_TYPES.contains(&%s.as_str())' % (TS, TS))),
         'Lit::Str': ([('Some(Type::Reference(_))', '$1')], None),
         'Lit::Bool': ([('Some(Type::Path(_))', '$1')], ncond('%s=="bool"' % TS)),
         'Lit::Char': ([('Some(Type::Path(_))', '$1')], ncond('%s=="char"' % TS)),
@@ -566,7 +567,10 @@ def check_expr_table(cx, rep):
             rep.bad('EXPR-TABLE', where, inst, '%s literals are left unchanged on %d paths (expected exactly one: the natural type)' % (k, len(got)), f.file, f.line)
             continue
         tys, conds, ev, negs, scr = got[0]
-        ok = tys == tywant and not negs and scr == ['$0', 'lit.lit'] and len(conds) == 1 and (conds[0] == cwant if cwant is not None else conds[0] in STR_CONDS)
+        # the innermost scrutinee is the literal: `lit.lit` of `Expr::Lit(lit)`, or the variable the literal selection
+        # (`match &expr { Expr::Lit(l) => Some(&l.lit), Expr::Unary(Neg, Lit(Int|Float)) => Some(..), _ => None }`) is bound to
+        scr_ok = scr == ['$0', 'lit.lit'] or (len(scr) == 2 and scr[1] in ('lit', 'some') and 'Expr::Lit' in scr[0])
+        ok = tys == tywant and not negs and scr_ok and len(conds) == 1 and (conds[0] == cwant if cwant is not None else conds[0] in STR_CONDS)
         if ok:
             rep.ok('EXPR-TABLE', '%s|%s' % (where, inst), {'literal': k, 'unchanged_when': '%s %s' % (tys, conds)})
         else:
@@ -582,9 +586,9 @@ def check_expr_table(cx, rep):
     for ev in fw.events:
         if ev.kind in ('armval', 'tail'):
             pats = [pat_shape(c['pat']) for c in ev.ctx if c['k'] == 'arm']
-            if pats and pats[-1] == '_' and len(pats) == 1 and al.text(ev.node) == '$0':
+            if pats and pats[-1] in ('_', 'None') and len(pats) == 1 and al.text(ev.node) == '$0':
                 other_ok = True
-            if ev.kind == 'tail' and pats == ['Expr::Lit(_)']:
+            if ev.kind == 'tail' and pats in (['Expr::Lit(_)'], ['Some(_)']):
                 t = tm.term(ev.node, ev.scope)
                 if isinstance(t, tuple) and t[0] == 'unwrap' and isinstance(t[1], tuple) and t[1][0] == 'call' and str(t[1][1]).endswith('parse2') and isinstance(t[1][2], tuple) and t[1][2][0] == 'tmpl':
                     for t2 in cx.gm.templates:
@@ -596,11 +600,44 @@ def check_expr_table(cx, rep):
         rep.ok('EXPR-TABLE', where + '|other literals wrapped in ::core::convert::Into::into')
     else:
         rep.bad('EXPR-TABLE', where, 'into-wrap', 'literals of a non-natural type are not wrapped in `::core::convert::Into::into(..)`', f.file, f.line)
+    # a negative number is a literal too, whichever way it is parsed (`-1` as one literal in `p = -1` at the end of a list, as the
+    # negation of a literal in `p(-1)` or when more follows): both forms must go through the same table
+    txt_all = al.text(f.block) if hasattr(al, 'text') else ''
+    neg_ok = 'Expr::Unary' in txt_all and 'UnOp::Neg' in txt_all and 'Lit::Int' in txt_all and 'Lit::Float' in txt_all
+    if neg_ok:
+        rep.ok('EXPR-TABLE', where + '|negated number literals are adjusted like literals')
+    else:
+        rep.bad('EXPR-TABLE', where, 'negated-literal', 'a negative number that arrives as `Expr::Unary(Neg, literal)` (`expr(-1)`, `expression = -1, ..`) is returned unchanged while '
+                'the same value arriving as one literal (`expression = -1`) is wrapped in Into::into: the spellings generate different code', f.file, f.line)
     if other_ok:
         rep.ok('EXPR-TABLE', where + '|non-literal expressions untouched')
     else:
         rep.bad('EXPR-TABLE', where, 'non-literal', 'non-literal expressions are not returned unchanged', f.file, f.line)
     rep.floor('EXPR-TABLE', 10)
+
+
+def check_builder_type_arg(cx, rep):
+    """the Default field builder adjusts a bare literal to the type it is handed: `build_from_attributes(&F.attrs, traits, &G.ty)` must
+    be given the type of the very field whose attributes it reads (F == G)"""
+    n = 0
+    for fn in cx.handler_fns():
+        if '::default::' not in fn.qname:
+            continue
+        fw = cx.fw(fn)
+        tm = cx.gm.terms_of(fw)
+        for ev in fw.events:
+            if ev.kind == 'mcall' and ev.method == 'build_from_attributes' and len(ev.args) == 3:
+                a, t = tm.term(ev.args[0], ev.scope), tm.term(ev.args[2], ev.scope)
+                n += 1
+                ok = isinstance(a, tuple) and isinstance(t, tuple) and a[0] == 'field' and t[0] == 'field' and a[2] == 'attrs' and t[2] == 'ty' and a[1] == t[1]
+                if ok:
+                    rep.ok('SUM-DEFAULT', '%s|field builder gets attrs and type of one field (line-independent: %s)' % (fn.qname, term_s(a[1], 40)))
+                else:
+                    rep.bad('SUM-DEFAULT', fn.qname, 'builder-type-arg',
+                            'the field builder reads the attributes of one field (%s) but is given the type of another (%s): a bare literal default is adjusted to the wrong type' % (term_s(a, 50), term_s(t, 50)),
+                            fn.file, ev.line)
+    if n < 3:
+        rep.broken.append('fewer than 3 Default field-builder calls with a type argument found (%d)' % n)
 
 
 def run(cx, tier='quick'):
@@ -635,6 +672,7 @@ def run(cx, tier='quick'):
     include_own_scanners(cx, facts, rep, ['::default::'])
     from .scope import check_scopes
     check_scopes(cx, rep, ['::default::'])
+    check_builder_type_arg(cx, rep)
     rep.floor('SUM-DEFAULT', 12)
     rep.floor('SEL', 2)
     rep.assumptions += ['a user expression is evaluated as written', 'struct-expression semantics']
